@@ -1,20 +1,29 @@
 (* C08 -- QoS limits suffice and are enforced (publish-subscribe part; request-response belongs to
    C11, events to C05, blackboard to C12, the wait set to C20).
-   Only statements; proofs in proofs/ConnProofs.v and proofs/PortProofs.v. *)
-From V Require Import model.Base model.Conn model.Port proofs.ConnProofs proofs.PortProofs.
+   Only statements; proofs in proofs/ConnProofs.v, proofs/PortProofs.v and (world-level induction)
+   proofs/PortInv*.v. *)
+From V Require Import model.Base model.Conn model.Port proofs.ConnProofs proofs.PortProofs proofs.PortInvStep proofs.PortInvRefl.
 From Coq Require Import Lia.
 
 (* ---- the data segment is large enough ----------------------------------------------------- *)
-(* PROVED by counting through the conservation invariant, for every state that satisfies it (that
-   every reachable state does is props/C02.v c02_conservation_full): at the allocation micro-step
-   (after retrieve_returned_chunks), while the loan limit still allows a loan, the number of chunks
-   in use is at most loans + H + S*(B+M) <= S*(B+M) + H + L - 1, so the free list is not empty and
-   the answer is never OutOfMemory. *)
-Theorem c08_pubsub_never_oom : forall w p,
+(* PROVED for every reachable world (any history of API calls of any number of ports, every QoS
+   tuple with max_subscribers + history_size + 4 < 2^64): a loan of a live publisher never answers
+   OutOfMemory.  Below the loan limit the allocation finds a free chunk, at the limit the answer is
+   ExceedsMaxLoans (c08_reject_clean_partial).  By c02_world_invariant and counting through the
+   conservation invariant: at the allocation micro-step (after retrieve_returned_chunks) at most
+   loans + H + S*(B+M) <= S*(B+M) + H + L - 1 chunks are in use. *)
+Theorem c08_pubsub_never_oom : forall c h w obs p w',
+  cfg_fits c -> run (world_new c) h = Val (w, obs) -> pub_live w p = true ->
+  pub_allocate w p <> Val (w', AErr EOutOfMemory).
+Proof. exact reachable_never_oom. Qed.
+Print Assumptions c08_pubsub_never_oom.
+
+(* the counting argument itself, for every state that satisfies the executable invariant *)
+Theorem c08_pubsub_never_oom_state : forall w p,
   pub_inv_b w p = true -> comps_empty w p -> p_loans (getp w p) < p_L (getp w p) ->
   p_free (getp w p) <> [] /\ forall w', pub_allocate_core w p <> Val (w', AErr EOutOfMemory).
 Proof. exact never_oom_at_allocation. Qed.
-Print Assumptions c08_pubsub_never_oom.
+Print Assumptions c08_pubsub_never_oom_state.
 
 (* the hypothesis comps_empty is what retrieve_returned_chunks establishes (proved on the world model,
    for every world): pub_allocate w p = pub_allocate_core (pub_retrieve w p) p.  Between a reclaim and the
@@ -26,10 +35,17 @@ Print Assumptions c08_retrieve_empties_completion_queues.
 
 (* a state in which every chunk but one is in use (full buffer, full borrow, full history, one of
    two loans out) satisfies the hypotheses; one more loan saturates the segment exactly *)
-Example c08_pubsub_never_oom_nonvacuous :
+Example c08_pubsub_never_oom_state_nonvacuous :
   (pub_inv_b sat_before 0 = true /\ p_loans (getp sat_before 0) = 1 /\ p_L (getp sat_before 0) = 2
    /\ length (p_free (getp sat_before 0)) = 1) /\ comps_empty sat_before 0.
 Proof. split; [exact sat_before_witness|exact sat_before_comps]. Qed.
+Print Assumptions c08_pubsub_never_oom_state_nonvacuous.
+
+(* the saturated world (no free chunk, both loans out) is reachable in a fitting configuration *)
+Example c08_pubsub_never_oom_nonvacuous :
+  cfg_fits cfg_sat /\ (exists obs, run (world_new cfg_sat) sat_history = Val (sat_world, obs))
+  /\ pub_live sat_world 0 = true /\ p_free (getp sat_world 0) = [].
+Proof. split; [reflexivity|]. destruct sat_witness as (A & _ & B & _ & _ & C). auto. Qed.
 Print Assumptions c08_pubsub_never_oom_nonvacuous.
 
 Theorem c08_saturation_reachable :
@@ -40,18 +56,39 @@ Proof. exact sat_witness. Qed.
 Print Assumptions c08_saturation_reachable.
 
 (* ---- a release never fails for lack of queue space ---------------------------------------- *)
-(* the completion queue has B + M + 1 places; sub + borrowed + comp <= B + M + 1 is part of the
-   invariant (B + M outside the publisher's blocking_send window, one more inside it), and a sample
-   that is released was borrowed, so at most B + M entries are queued before it *)
-Theorem c08_release_never_full : forall c bor o bor',
+(* PROVED for every reachable world: the release of a live Sample whose publisher is live and still
+   has the connection in its table (true for every Sample of a registered subscriber:
+   c08_release_covered) finds a place in the completion queue.  The completion queue has
+   B + M + 1 places; sub + borrowed + comp <= B + M + 1 is part of the world invariant (B + M
+   outside the publisher's blocking_send window, one more inside it), and a sample that is
+   released was borrowed, so at most B + M entries are queued before it.
+   Excluded: a Sample whose publisher is gone or has dropped the connection (then nobody reclaims;
+   the model keeps no bound for such a connection). *)
+Theorem c08_release_never_full : forall c h w obs x cn,
+  cfg_fits c -> run (world_new c) h = Val (w, obs) ->
+  In x (w_samples w) -> pub_live w (x_origin x) = true -> In (Some (x_sub x)) (p_tab (getp w (x_origin x))) ->
+  getc w (x_origin x) (x_sub x) = Some cn ->
+  exists c', c_release cn (x_off x) = Val (c', true).
+Proof. exact reachable_release_never_full. Qed.
+Print Assumptions c08_release_never_full.
+
+Theorem c08_release_covered : forall c h w obs x,
+  cfg_fits c -> run (world_new c) h = Val (w, obs) ->
+  In x (w_samples w) -> pub_live w (x_origin x) = true -> sub_live w (x_sub x) = true ->
+  In (Some (x_sub x)) (p_tab (getp w (x_origin x))) /\ exists cn, getc w (x_origin x) (x_sub x) = Some cn.
+Proof. exact reachable_sample_covered. Qed.
+Print Assumptions c08_release_covered.
+
+(* the connection-local step, for every connection that satisfies its invariant *)
+Theorem c08_release_never_full_state : forall c bor o bor',
   conn_inv c bor -> minus_one bor o bor' ->
   length (c_sub c) + length bor + length (c_comp c) <= c_B c + c_M c + 1 ->
   exists c', c_release c o = Val (c', true)
              /\ c_sub c' = c_sub c /\ c_used c' = c_used c /\ c_comp c' = c_comp c ++ [o] /\ conn_inv c' bor'.
 Proof. exact release_spec. Qed.
-Print Assumptions c08_release_never_full.
+Print Assumptions c08_release_never_full_state.
 
-Example c08_release_never_full_nonvacuous :
+Example c08_release_never_full_state_nonvacuous :
   exists c1 c2 e, c_try_send (conn_new 1 1 false 4) 2 0 = Val (c1, SOk None) /\ c_receive c1 = (c2, RcvOk (Some e))
                   /\ conn_inv c2 [2] /\ minus_one [2] 2 [].
 Proof.
@@ -64,6 +101,16 @@ Proof.
     pose proof (receive_spec _ _ _ _ H1 Hr) as H2. cbn in H2. destruct H2 as (_ & _ & _ & _ & H2). exact H2.
   - split; [reflexivity|]. intros x. cbn [count_occ]. destruct (Nat.eq_dec 2 x); lia.
 Qed.
+Print Assumptions c08_release_never_full_state_nonvacuous.
+
+(* a reachable world with a live Sample of a registered subscriber of a live publisher *)
+Example c08_release_never_full_nonvacuous :
+  cfg_fits cfg11 /\
+  match run (world_new cfg11) [OPubCreate 2 false HNone; OSubCreate None None; OSendCopy 0; ORecv 0] with
+  | Val (w, _) => exists x, In x (w_samples w) /\ pub_live w (x_origin x) = true /\ sub_live w (x_sub x) = true
+  | Panic => False
+  end.
+Proof. split; [reflexivity|]. vm_compute. eexists. split; [left; reflexivity|split; reflexivity]. Qed.
 Print Assumptions c08_release_never_full_nonvacuous.
 
 (* ---- beyond a limit: the documented error, no side effect, success after one unit is freed --- *)
